@@ -24,7 +24,7 @@ Match(e) ==
     [] e.act = "set_dims"     -> /\ Len(e.args.olds) = Len(dsaxes) /\ \A q \in 1..Len(dsaxes) : \E r \in 1..Len(e.args.olds) : e.args.olds[r] = NameOf(dsaxes[q])
                                  /\ SetDims([q \in 1..Len(dsaxes) |-> e.args.names[CHOOSE r \in 1..Len(e.args.olds) : e.args.olds[r] = NameOf(dsaxes[q])]])
     [] e.act = "rename_axes"  -> RenameAxes(e.args.d, e.args.n)
-    [] e.act = "rename_keys"  -> RenameKeys(e.args.k, e.args.n)
+    [] e.act = "rename_keys"  -> (RenameKeys(e.args.k, e.args.n) \/ RenameKeysOnto(e.args.k, e.args.n))
     [] e.act = "set_axis"     -> SetAxisValues(e.args.d, e.args.labs)
     [] e.act = "relabel_one"  -> RelabelOne(e.args.d, e.args.i, e.args.v)
     [] e.act = "replace_axis" -> ReplaceAxisObject(e.args.d, e.args.labs)
